@@ -213,7 +213,7 @@ fn drive_raw<T: Transport, const N: usize>(t: T, p: &NetParams, rng: &mut SmallR
                     if let Some(mut b) = rx.remove(&tok) {
                         dev(json!({"e":"Call","op":"receive_complete","tok":tok}));
                         match unsafe { net.receive_complete(tok, &mut b) } {
-                            Ok((h, l)) => dev(json!({"e":"Ret","ok":true,"hdr_len":h,"pkt_len":l,"dg":fnv64(&b[h..h + l])})),
+                            Ok((h, l)) => dev(json!({"e":"Ret","ok":true,"hdr_len":h,"pkt_len":l,"dg":h.checked_add(l).and_then(|e| b.get(h..e)).map(fnv64).unwrap_or_else(|| "beyond-buffer".into())})),
                             Err(e) => rfail(e),
                         }
                     }
